@@ -13,6 +13,11 @@ files under include/:
   rng-object       any variable whose type is std::random_device or a standard engine
   field (mutable)  fieldDecl whose AST dump carries the `mutable` keyword
 
+and three textual scans of the comment-stripped headers: "write" (assignments to the non-const namespace-scope
+objects), "rand-user" (calls of the wrappers uniform_random / gaussian_random / uniform_random_index(_bounded) /
+random_shuffle of defines/random.hpp, counted per file) and "logger-read" (any use of Logging::instance() other
+than a message_<level>(..) call).
+
 Templates are covered through their patterns (uninstantiated bodies are matched too); instantiations
 of the same declaration collapse because entries are keyed by (file, kind, name), never by line
 number, so that moving code around does not change the table.  Const-qualified variables get the
@@ -44,6 +49,10 @@ RAND_NAMES = '"::rand", "::srand", "::std::rand", "::std::srand", "::random", ":
              '"::drand48", "::srand48", "::lrand48", "::rand_r"'
 RNG_TYPES = "random_device|mersenne_twister_engine|linear_congruential_engine|" \
             "subtract_with_carry_engine|discard_block_engine|shuffle_order_engine|independent_bits_engine"
+
+
+RAND_WRAPPERS = ["uniform_random_index_bounded", "uniform_random_index", "uniform_random", "gaussian_random",
+                 "random_shuffle", "verif_random_shuffle"]
 
 
 class TranslateError(Exception):
@@ -184,6 +193,34 @@ def parse(out, inc):
                                 not re.search(r"\b(return|else|do)\s+$", before):
                             continue
                         entries.add((rel, "write", name))
+    # textual: who draws from the process-wide random stream through the wrappers of defines/random.hpp
+    # ("rand-user", counted per file and wrapper), and every use of the Logging singleton that is not a
+    # `message_<level>(..)` call ("logger-read": the level getters, the sink getter / setter, the level
+    # switches, or the singleton escaping into a variable) - message_* returns void, so a library that only
+    # calls those cannot learn anything from the logger
+    users = {}
+    upat = re.compile(r"(?<![\w.>])(?:tapkee::)?(" + "|".join(RAND_WRAPPERS) + r")\s*\(")
+    lpat = re.compile(r"\bLogging\s*::\s*instance\s*\(\s*\)(?:\s*\.\s*(\w+))?")
+    for root, dirs, files in sorted(os.walk(inc)):
+        dirs.sort()
+        for f in sorted(files):
+            if not f.endswith((".hpp", ".h")):
+                continue
+            path = os.path.join(root, f)
+            rel = os.path.relpath(path, inc)
+            text = strip_comments(open(path, errors="replace").read())
+            if rel != "tapkee/defines/random.hpp":
+                for mm in upat.finditer(text):
+                    users[(rel, mm.group(1))] = users.get((rel, mm.group(1)), 0) + 1
+            if rel != "tapkee/utils/logging.hpp":
+                for mm in lpat.finditer(text):
+                    member = mm.group(1)
+                    if member is None:
+                        entries.add((rel, "logger-read", "instance-escapes"))
+                    elif not member.startswith("message_"):
+                        entries.add((rel, "logger-read", member))
+    for (rel, fn), cnt in users.items():
+        entries.add((rel, "rand-user", "%s#%d" % (fn, cnt)))
     return sorted(entries)
 
 
@@ -262,10 +299,20 @@ def selftest(repo):
                       "inline void centerMatrix(DenseMatrix& matrix)\n{\n    static int t_static_calls = 0;\n"
                       "    ++t_static_calls;\n    if (t_static_calls > 1000000) std::srand(1);")
         open(p, "w").write(s)
+        p2 = os.path.join(dst, "include", "tapkee", "routines", "pca.hpp")
+        s2 = open(p2).read()
+        marker = "DenseVector mean = DenseVector::Zero(dimension);"
+        if marker not in s2:
+            print("selftest FAILED: marker not found in routines/pca.hpp")
+            return 1
+        s2 = s2.replace(marker, marker + "\n    if (Logging::instance().is_debug_enabled()) mean(0) += 0 * tapkee::uniform_random();", 1)
+        open(p2, "w").write(s2)
         mut, _ = generate(dst)
         added = set(mut) - set(base)
         want = {("tapkee/utils/matrix.hpp", "static-local", "t_static_calls"),
-                ("tapkee/utils/matrix.hpp", "rand", "srand#1")}
+                ("tapkee/utils/matrix.hpp", "rand", "srand#1"),
+                ("tapkee/routines/pca.hpp", "rand-user", "uniform_random#1"),
+                ("tapkee/routines/pca.hpp", "logger-read", "is_debug_enabled")}
         ok = added == want and set(base) <= set(mut)
         print("selftest", "ok" if ok else "FAILED", sorted(added))
         return 0 if ok else 1
